@@ -38,6 +38,7 @@ Apply(ee, l) ==
                         [ev |-> WrFrame(4116, 0, <<129 + NodeId, 0, 0, 0>>), e |-> ee,
                          x |-> IF ~SdoOK(ee.mode) THEN << <<"cb", "canrx", SdoRx>> >>
                                ELSE IF ee.valid THEN <<Abort(4116, 0, <<48, 0, 9, 6>>)>> ELSE << <<"stop">> >>]
+    [] l[1] = "nmtreset" -> [ev |-> <<"rx", 0, 2, l[2], NodeId, 0, 0, 0, 0, 0, 0>>, e |-> [ee EXCEPT !.act = {}, !.mode = PREOP], x |-> << <<"free">> >>]   \* emergencies cleared silently
     [] l[1] = "mode" -> [ev |-> <<"nmt_set", l[2]>>, e |-> [ee EXCEPT !.mode = l[2]], x |-> <<>>]
 View == e
 Rec(step) == /\ hist' = (IF Walk THEN Append(hist, step) ELSE <<step>>)
